@@ -15,6 +15,7 @@ import shutil
 from concurrent.futures import ThreadPoolExecutor
 
 from .. import core
+from .. import astpos
 from . import pybind_common
 from ..gen import scopes
 
@@ -60,7 +61,7 @@ def real_file_sites(path, rng, limit):
     import ast
     src = open(path).read()
     try:
-        tree = ast.parse(src)
+        tree = astpos.parse(src)
     except SyntaxError:
         return None
     names = [(n.lineno, n.col_offset, n.id) for n in ast.walk(tree) if isinstance(n, ast.Name) and isinstance(n.ctx, ast.Load)]
@@ -208,7 +209,7 @@ def run(tier, replay=None):
             # multi-scope modules: nested functions, sibling closures, lambdas, classes, comprehensions, global / nonlocal
             import ast
             for mi, src in enumerate(scopes.gen_modules(seed * 31 + 5, 1500 if thorough else 90)):
-                sites = sorted((n.lineno, n.col_offset, n.id) for n in ast.walk(ast.parse(src)) if isinstance(n, ast.Name) and isinstance(n.ctx, ast.Load))
+                sites = sorted((n.lineno, n.col_offset, n.id) for n in ast.walk(astpos.parse(src)) if isinstance(n, ast.Name) and isinstance(n.ctx, ast.Load))
                 sites = [list(x) for x in sites if x[2] != 'use']
                 n = len(sites)
                 if n < 2:
@@ -225,7 +226,7 @@ def run(tier, replay=None):
             # scopes with hundreds of regions (the analysis resolves them iteratively the first time a scope is queried)
             for li, nifs in enumerate((120, 400)):
                 src = 'c = 0\n' + ''.join('if c:\n    v%d = %d\n' % (i % 7, i) for i in range(nifs)) + 'print(v3, c)\n'
-                sites = sorted((n.lineno, n.col_offset, n.id) for n in ast.walk(ast.parse(src)) if isinstance(n, ast.Name) and isinstance(n.ctx, ast.Load))
+                sites = sorted((n.lineno, n.col_offset, n.id) for n in ast.walk(astpos.parse(src)) if isinstance(n, ast.Name) and isinstance(n.ctx, ast.Load))
                 sites = [list(x) for x in sites]
                 n = len(sites)
                 sites = [sites[i - 1] for i in (1, 2, n // 2, n - 2, n - 1, n)]     # first, middle and last reads only
